@@ -22,6 +22,9 @@
 (*              one only while the shorter copy still says "modifiable" (bit 0 / 1 / 7), and --   *)
 (*              for a shielded bundle -- only before IO finalisation (`bsk` absent on both):      *)
 (*              afterwards the lengths must agree.  `bsk` itself is a flat optional slot.         *)
+(*              (A Sapling bundle has TWO lists and a value balance that depends on both: that    *)
+(*              refinement, with the value balance as a slot, is PcztGrowth.tla, which            *)
+(*              instantiates this module; `act` here is the one-list projection.)                 *)
 EXTENDS Naturals, FiniteSets, Sequences, TLC
 
 CONSTANTS OptSlots,      \* names of flat optional slots
